@@ -634,6 +634,8 @@ inductive Node
   | embedData (size count rep : Nat)
   | comment (text : Str)
   | section (name : Str)
+  | embedLabel (id : Nat)
+  | embedLabelDelta (id base : Nat)
   deriving Repr
 
 /-- `format_data_type`: `word_name_table[ArchTraits::type_name_id_by_index(log2 size)]` — x86: db dw dd dq, AArch64: byte hword word xword -/
@@ -652,17 +654,26 @@ def formatNodeBody (flags : Nat) (env : Env) : Node → Str
       " TotalSize=".toList ++ uintStr (size * count) ++ ['}']
   | .comment t => "; ".toList ++ t
   | .section name => ".section ".toList ++ name
+  | .embedLabel id => ".label ".toList ++ formatLabel env id
+  | .embedLabelDelta id base => ".label (".toList ++ formatLabel env id ++ " - ".toList ++ formatLabel env base ++ [')']
 
-/-- `Formatter::format_node` (no kPositions prefix: Builder nodes carry no position before the compiler passes):
-    a comment node returns at once; otherwise an inline comment is padded to the regular-line column and appended after `; ` -/
-def formatNode (flags : Nat) (env : Env) (pad0 : Nat) (n : Node) (inl : Option Str) : Str :=
+/-- `<%05u> `: the node position, printed when `kPositions` is set and the node has one (`position != 0`) -/
+def positionPrefix (flags pos : Nat) : Str :=
+  if hasBit flags ffPositions ∧ pos ≠ 0 then
+    ['<'] ++ List.replicate (5 - (uintStr pos).length) '0' ++ uintStr pos ++ ['>', ' ']
+  else []
+
+/-- `Formatter::format_node`: position prefix; a comment node returns at once; otherwise an inline comment is padded to the
+    regular-line column (counted from after the prefix) and appended after `; ` -/
+def formatNode (flags : Nat) (env : Env) (pad0 : Nat) (n : Node) (inl : Option Str) (pos : Nat := 0) : Str :=
+  positionPrefix flags pos ++
   match n, inl with
   | .comment t, _ => formatNodeBody flags env (.comment t)
   | n, some c => padEnd (formatNodeBody flags env n) (paddingOf pad0 44) ++ [';', ' '] ++ c
   | n, none => formatNodeBody flags env n
 
 /-- `Formatter::format_node_list`: every node's text followed by a newline -/
-def formatNodeList (flags : Nat) (env : Env) (pad0 : Nat) (nodes : List (Node × Option Str)) : Str :=
-  nodes.flatMap fun p => formatNode flags env pad0 p.1 p.2 ++ ['\n']
+def formatNodeList (flags : Nat) (env : Env) (pad0 : Nat) (nodes : List (Node × Option Str × Nat)) : Str :=
+  nodes.flatMap fun p => formatNode flags env pad0 p.1 p.2.1 p.2.2 ++ ['\n']
 
 end AsmjitVerif.Format
